@@ -18,13 +18,16 @@ ID = "C18"
 hang_is_violation = False
 
 TIERS = {
-    "quick": {"budget_s": 70, "max_ops": 9, "size": (2, 14), "run_timeout": 90.0,
+    "quick": {"budget_s": 70, "corpus": True, "max_ops": 9, "size": (2, 14), "run_timeout": 90.0,
               "determinism_every": 40},
-    "thorough": {"budget_s": 900, "max_ops": 14, "size": (2, 40), "run_timeout": 120.0,
+    "thorough": {"budget_s": 900, "corpus": True, "max_ops": 14, "size": (2, 40), "run_timeout": 120.0,
                  "determinism_every": 300, "determinism_max": 200},
 }
 
-RULE = ("one run = a seeded operation list over a pool of trees: parse(program with comments / "
+RULE = ("first, bounded-exhaustively: for every snippet of the corpus (statement zoo + snippets "
+        "harvested from fparser's own tests, at least one per grammar rule; 4 per run) parse, "
+        "deepcopy, pickle round trip, mutate both copies, one restart-load; then one run = a "
+        "seeded operation list over a pool of trees: parse(program with comments / "
         "directives / unresolved INCLUDE / cpp lines, std, comment option, string or file "
         "reader), deepcopy(i), in-process pickle round trip(i), dump(i) to 'disk', "
         "restart_load(bytes, history of the fresh process), mutate(copy j), create(std); after "
@@ -45,7 +48,7 @@ COMPONENTS = {
     "stub": ["file system (SimFS) for file readers", "the disk (bytes in the op log)",
              "process restart (pristine forked process with its own history)"],
 }
-PROBES = ["load_in_fresh_interpreter_other_hashseed", "tree_from_resolved_include_copied",
+PROBES = ["corpus_tree_copied", "load_in_fresh_interpreter_other_hashseed", "tree_from_resolved_include_copied",
           "mutated_label_or_name_of_copy", "copied_tree_with_Comment", "copied_tree_with_Directive", "copied_tree_with_Include_Stmt",
           "copied_tree_with_Cpp", "load_under_other_std_registry", "load_with_no_parser_created",
           "mutate_then_compare_pool_ge3", "file_reader_tree_copied", "restart_load_done",
@@ -59,7 +62,77 @@ EXTRA_LINES = ["! plain comment", "!$omp parallel do", "!dir$ ivdep", "include '
                "# 12 \"f.f90\"", "#"]
 
 
+_CORPUS = None
+CORPUS_PER_RUN = 4
+
+
+def _corpus():
+    """Snippets harvested from fparser's own tests (at least one per grammar rule), wrapped so
+    that each parses on its own: the bounded-exhaustive part of C18 copies a tree of each."""
+    global _CORPUS
+    if _CORPUS is None:
+        import json
+
+        from ..gen import zoo
+
+        out = []
+        path = os.path.join(os.path.dirname(zoo.__file__), "zoo_harvest.json")
+        if os.path.exists(path):
+            with open(path) as fobj:
+                harvest = json.load(fobj)
+            for ent in harvest.get("exec", []):
+                out.append({"std": ent["std"], "text": "subroutine zz(u)\nreal :: x\n" +
+                            "\n".join(ent["lines"]) + "\nend subroutine zz\n"})
+            for ent in harvest.get("program", []):
+                out.append({"std": ent["std"], "text": "\n".join(ent["lines"]) + "\n"})
+        for text in zoo.SPEC + zoo.USES:
+            if text != "enum, bind(c)":
+                out.append({"std": "f2003", "text": "subroutine zz(u)\n" + text +
+                            "\nend subroutine zz\n"})
+        for grp in zoo.SPEC_GROUPS:
+            out.append({"std": "f2003", "text": "subroutine zz(u)\n" + "\n".join(grp) +
+                        "\nend subroutine zz\n"})
+        for text in zoo.EXEC + zoo.EXEC_F08:
+            out.append({"std": "f2008", "text": "subroutine zz(u)\nreal :: x\n" + text +
+                        "\nend subroutine zz\n"})
+        for grp in zoo.EXEC_GROUPS + zoo.EXEC_GROUPS_F08:
+            out.append({"std": "f2008", "text": "subroutine zz(u)\nreal :: x\n" +
+                        "\n".join(grp) + "\nend subroutine zz\n"})
+        _CORPUS = out
+    return _CORPUS
+
+
+def corpus_runs():
+    return (len(_corpus()) + CORPUS_PER_RUN - 1) // CORPUS_PER_RUN
+
+
+def _corpus_case(index):
+    ents = _corpus()[index * CORPUS_PER_RUN:(index + 1) * CORPUS_PER_RUN]
+    programs = {}
+    ops = []
+    cur = None
+    t = 0
+    for k, ent in enumerate(ents):
+        programs["p%d" % k] = {"text": ent["text"], "std": ent["std"]}
+        if ent["std"] != cur:
+            ops.append(["create", ent["std"]])
+            cur = ent["std"]
+        ops.append(["parse", "p%d" % k, "keep", "string"])
+        base = t
+        ops.append(["deepcopy", base])
+        ops.append(["pickle", base, None])
+        ops.append(["mutate", base + 1, "rename", 3])
+        ops.append(["mutate", base + 2, "relabel", 5])
+        t += 3
+        if k == 0:
+            ops.append(["dump", base, None])
+            ops.append(["restart_load", 0, "none", 1])
+    return {"prop": ID, "programs": programs, "ops": ops, "corpus_index": index}
+
+
 def generate(run_seed, cfg):
+    if cfg.get("corpus") and cfg.get("index", 0) < corpus_runs():
+        return _corpus_case(cfg["index"])
     st = rng.Streams(run_seed)
     sw = st("swarm")
     programs = {}
@@ -232,6 +305,8 @@ def execute(case):
     def violate(clause, site, detail):
         violations.append({"clause": clause, "site": site, "detail": detail})
 
+    if "corpus_index" in case:
+        probe("corpus_tree_copied", len(case["programs"]))
     server = forkrun.PristineServer(_restart_child, timeout=60.0)  # while still pristine
     image = {"%s.f90" % k: v["text"].encode("utf-8") for k, v in case["programs"].items()}
     for v in case["programs"].values():
@@ -331,6 +406,8 @@ def execute(case):
                              "std": cur_std, "classes": fp.node_classes(tree),
                              "has_inc": bool(prog.get("inc"))})
                 state_keys.add(("classes", tuple(pool[-1]["classes"][:40]), op[3]))
+                for cname in pool[-1]["classes"]:
+                    state_keys.add(("class", cname))
             elif op[0] in ("deepcopy", "pickle"):
                 idx = op[1]
                 if idx >= len(pool) or pool[idx] is None:
